@@ -3,6 +3,7 @@
   Malformed input is answered with {"err": ...}; nothing is defaulted.
 -/
 import XpDriver.Proto
+import XpDriver.C02
 import XpDriver.C06
 import XpDriver.C19
 open Lean Xp Xp.Proto
@@ -10,6 +11,10 @@ open Lean Xp Xp.Proto
 def dispatch (op : String) (j : Json) : R Json :=
   match op with
   | "ping" => pure (Json.str "pong")
+  | "op_resolve" => Ops.opResolve j
+  | "find_layer" => Ops.findLayerOp j
+  | "seg_score" => Ops.segScoreOp j
+  | "drise" => Ops.driseOp j
   | "occl" => Ops.occl j
   | "obj_run" => Ops.objRun j
   | "obj_compile" => Ops.objCompile j
